@@ -54,8 +54,8 @@ func init() {
 		Old: "\t\tw.leaves[bf.count-1] = bf.key", New: "\t\tw.leaves[len(w.leaves)-int(bf.count)] = bf.key",
 		Expect: "leaf-numbering"})
 	addWitness(witness{Prop: "C01", Name: "flush-reads-before-handshake", File: "pkg/cafs/writer.go",
-		Old: "\tclose(w.flushChan)\n\t<-w.flushThreadDoneChan\n\n\tif len(w.errors) != 0 {\n\t\treturn Key{}, nil, w.errors[0]\n\t}\n",
-		New: "\tif len(w.errors) != 0 {\n\t\treturn Key{}, nil, w.errors[0]\n\t}\n\tclose(w.flushChan)\n\t<-w.flushThreadDoneChan\n",
+		Old:    "\tclose(w.flushChan)\n\t<-w.flushThreadDoneChan\n\n\tif len(w.errors) != 0 {\n\t\treturn Key{}, nil, w.errors[0]\n\t}\n",
+		New:    "\tif len(w.errors) != 0 {\n\t\treturn Key{}, nil, w.errors[0]\n\t}\n\tclose(w.flushChan)\n\t<-w.flushThreadDoneChan\n",
 		Expect: "flush-order"})
 	addWitness(witness{Prop: "C01", Name: "read-empty-guard-removed", File: "pkg/cafs/reader.go",
 		Old: "\tif r.idx >= len(r.keys) {\n\t\t// no leaf (left) to read, e.g. empty content\n\t\treturn 0, io.EOF\n\t}\n", New: "",
@@ -73,26 +73,26 @@ func init() {
 		Old: "\tcase found && !overwrite:\n\t\t// the blob has been found and checked", New: "\tcase found:\n\t\t// the blob has been found and checked",
 		Expect: "dedup"})
 	addWitness(witness{Prop: "C03", Name: "writeto-skips-verify", File: "pkg/cafs/reader.go",
-		Old: "\t\t\t\tif erv := r.verifyHash(key, leaf, nodeOffset, isLastNode); erv != nil {\n\t\t\t\t\terrC <- erv\n\t\t\t\t\treturn\n\t\t\t\t}\n",
-		New: "\t\t\t\t_, _ = nodeOffset, isLastNode\n",
+		Old:    "\t\t\t\tif erv := r.verifyHash(key, leaf, nodeOffset, isLastNode); erv != nil {\n\t\t\t\t\terrC <- erv\n\t\t\t\t\treturn\n\t\t\t\t}\n",
+		New:    "\t\t\t\t_, _ = nodeOffset, isLastNode\n",
 		Expect: "verify-coverage"})
 	addWitness(witness{Prop: "C03", Name: "verify-only-last-leaf", File: "pkg/cafs/reader.go",
 		Old: "\t\tif r.withVerifyHash {\n\t\t\tlogger.Debug(\"cafs reader ReadAt: hash verification\")", New: "\t\tif r.withVerifyHash && index+1 == len(r.keys) {\n\t\t\tlogger.Debug(\"cafs reader ReadAt: hash verification\")",
 		Expect: "verify-coverage"})
 	addWitness(witness{Prop: "C03", Name: "root-fastpath-skips-checksum", File: "pkg/cafs/hasher.go",
-		Old: "\tb, err := bytesFromRoot(blobs, hash, prefix)\n\tif err != nil {\n\t\treturn nil, err\n\t}\n\treturn verifiedKeys(b, leafSize)",
-		New: "\tb, err := bytesFromRoot(blobs, hash, prefix)\n\tif err != nil {\n\t\treturn nil, err\n\t}\n\tif len(b) == KeySize {\n\t\treturn []Key{}, nil\n\t}\n\treturn verifiedKeys(b, leafSize)",
+		Old:    "\tb, err := bytesFromRoot(blobs, hash, prefix)\n\tif err != nil {\n\t\treturn nil, err\n\t}\n\treturn verifiedKeys(b, leafSize)",
+		New:    "\tb, err := bytesFromRoot(blobs, hash, prefix)\n\tif err != nil {\n\t\treturn nil, err\n\t}\n\tif len(b) == KeySize {\n\t\treturn []Key{}, nil\n\t}\n\treturn verifiedKeys(b, leafSize)",
 		Expect: "verify-coverage"})
 	addWitness(witness{Prop: "C03", Name: "mismatch-logged-only", File: "pkg/cafs/reader.go",
 		Old: "\t\treturn errors.New(\"hash verification failed\")\n\t}\n\treturn nil", New: "\t\t_ = errors.New(\"hash verification failed\")\n\t}\n\treturn nil",
 		Expect: "mismatch-is-error"})
 	addWitness(witness{Prop: "C03", Name: "put-clobbers-write-error", File: "pkg/storage/localfs/store.go",
-		Old: "\t\t\tif e := target.Close(); e != nil {\n\t\t\t\tl.l.Error(\"write error, retrying\",\n\t\t\t\t\tzap.String(\"key\", key),\n\t\t\t\t\tzap.Error(e),\n\t\t\t\t)\n\t\t\t\tif err == nil {\n\t\t\t\t\t// do not mask a write error by the outcome of Close\n\t\t\t\t\terr = e\n\t\t\t\t}\n\t\t\t}\n\n\t\t\treturn err\n\t\t}\n\t\terr = backoff.Retry(operation, retryPolicy)\n\t\tif err != nil {\n\t\t\treturn fmt.Errorf(\"write record for %q: %v\", key, err)\n\t\t}\n\t} else {",
-		New: "\t\t\terr = target.Close()\n\t\t\tif err != nil {\n\t\t\t\tl.l.Error(\"write error, retrying\",\n\t\t\t\t\tzap.String(\"key\", key),\n\t\t\t\t\tzap.Error(err),\n\t\t\t\t)\n\t\t\t}\n\n\t\t\treturn err\n\t\t}\n\t\terr = backoff.Retry(operation, retryPolicy)\n\t\tif err != nil {\n\t\t\treturn fmt.Errorf(\"write record for %q: %v\", key, err)\n\t\t}\n\t} else {",
+		Old:    "\t\t\tif e := target.Close(); e != nil {\n\t\t\t\tl.l.Error(\"write error, retrying\",\n\t\t\t\t\tzap.String(\"key\", key),\n\t\t\t\t\tzap.Error(e),\n\t\t\t\t)\n\t\t\t\tif err == nil {\n\t\t\t\t\t// do not mask a write error by the outcome of Close\n\t\t\t\t\terr = e\n\t\t\t\t}\n\t\t\t}\n\n\t\t\treturn err\n\t\t}\n\t\terr = backoff.Retry(operation, retryPolicy)\n\t\tif err != nil {\n\t\t\treturn fmt.Errorf(\"write record for %q: %v\", key, err)\n\t\t}\n\t} else {",
+		New:    "\t\t\terr = target.Close()\n\t\t\tif err != nil {\n\t\t\t\tl.l.Error(\"write error, retrying\",\n\t\t\t\t\tzap.String(\"key\", key),\n\t\t\t\t\tzap.Error(err),\n\t\t\t\t)\n\t\t\t}\n\n\t\t\treturn err\n\t\t}\n\t\terr = backoff.Retry(operation, retryPolicy)\n\t\tif err != nil {\n\t\t\treturn fmt.Errorf(\"write record for %q: %v\", key, err)\n\t\t}\n\t} else {",
 		Expect: "errors-surface"})
 	addWitness(witness{Prop: "C03", Name: "download-absorbs-put-error", File: "pkg/core/bundle_unpack.go",
-		Old: "\t\tbundle.l.Error(\"Failed to download bundle entry: put to store\",\n\t\t\tzap.String(\"name\", bundleEntry.NameWithPath),\n\t\t\tzap.Error(err))\n\t\treturn err",
-		New: "\t\tbundle.l.Error(\"Failed to download bundle entry: put to store\",\n\t\t\tzap.String(\"name\", bundleEntry.NameWithPath),\n\t\t\tzap.Error(err))\n\t\tif !overwrite {\n\t\t\treturn nil\n\t\t}\n\t\treturn err",
+		Old:    "\t\tbundle.l.Error(\"Failed to download bundle entry: put to store\",\n\t\t\tzap.String(\"name\", bundleEntry.NameWithPath),\n\t\t\tzap.Error(err))\n\t\treturn err",
+		New:    "\t\tbundle.l.Error(\"Failed to download bundle entry: put to store\",\n\t\t\tzap.String(\"name\", bundleEntry.NameWithPath),\n\t\t\tzap.Error(err))\n\t\tif !overwrite {\n\t\t\treturn nil\n\t\t}\n\t\treturn err",
 		Expect: "no-success-on-failure"})
 	addWitness(witness{Prop: "C03", Name: "default-verify-off", File: "pkg/cafs/cafs.go",
 		Old: "\t\twithVerifyHash:              true,  // verify read blobs and written root key", New: "\t\twithVerifyHash:              false, // verify read blobs and written root key",
@@ -249,6 +249,9 @@ func runC01(c *Ctx) {
 	checkFlushOrder(c, "flush-order")
 	// (5) empty guards
 	checkKeysIndexGuards(c, "empty-guard")
+	// the three read styles recompute each leaf key with the writer's (offset, last-node) convention: a reader that
+	// disagrees cannot read back what the writer stored (shared with C02, which needs it for key determinism)
+	checkOffsetConvention(c, "offset-convention")
 }
 
 // checkWriterHandoff: ownership of the buffer given to `go pFlush`.
@@ -480,7 +483,9 @@ func checkFlushOrder(c *Ctx, rule string) {
 		pb := p.BodyOf(pf)
 		pinfo := pf.Info()
 		isFlush := func(bd *Body, call *ast.CallExpr) bool { return calleeID(pinfo, call) == "pkg/cafs.Writer.Flush" }
-		isRootW := func(bd *Body, call *ast.CallExpr) bool { return calleeID(pinfo, call) == "pkg/cafs.defaultFs.writeRootKey" }
+		isRootW := func(bd *Body, call *ast.CallExpr) bool {
+			return calleeID(pinfo, call) == "pkg/cafs.defaultFs.writeRootKey"
+		}
 		badW, nB := pb.dominatedBy(isFlush, isRootW)
 		c.check(nB > 0 && len(badW) == 0, rule, pf.ID+":root-after-flush", p.Pos(pf.Decl.Pos()), "the root blob is written only after Flush", "the root blob can be written before the writer was flushed")
 		lits := compositeLits(pf, "pkg/cafs.PutRes")
@@ -756,6 +761,8 @@ func runC02(c *Ctx) {
 		})
 		c.check(okF, "dedup.found-means-present", f.ID, p.Pos(f.Decl.Pos()), "found <=> GetAttr of the blob path returned no error", "existsAndValidBlob no longer derives found from GetAttr(pth) succeeding")
 	}
+	// dedup: stored content is not rewritten on stores that report no checksum (shared with C15)
+	checkCRCOptional(c, "dedup.crc-optional")
 }
 
 func isFoundAndNotOverwrite(f *FuncInfo, e ast.Expr) bool {
